@@ -8,11 +8,72 @@ use crate::engine::{Case, Ctx, Outcome, Property, Violation};
 use crate::exec::Status;
 use crate::oracle;
 use crate::plan::{Item, Plan};
-use crate::props::c17::{gen_sink_plan, locate_fault};
+use crate::props::c17::{gen_sink_plan, locate_fault, locate_name_fault, name_flip_item, FailDesc};
 use crate::rng::Rng;
 use crate::world::World;
 
 pub struct C18;
+
+fn check_positions(w2: &crate::w2::W2Prog, ev: &FailDesc, r: &crate::exec::RunResult, case: &Case, kind: &str, mut out: Outcome) -> Outcome {
+    let clause = "a reported position is the true line and column of the offending token, whatever precedes it";
+    let d = match diag::parse(&r.stderr, &r.argv1) {
+        None => {
+            out.probes.push("unparsed".into());
+            return out;
+        }
+        Some(d) => d,
+    };
+    let mut bad = vec![];
+    let mut kinds = vec![];
+    let mut known_k1 = false;
+    let (el, ec) = w2.pos[ev.node].unwrap_or((0, 0));
+    out.probes.push("pos:call".into());
+    for f in &w2.feats[ev.node] {
+        out.probes.push(format!("feat:{f}"));
+        out.cells.push(format!("{kind}<-{f}"));
+    }
+    let (segs, _) = diag::segments(&d.head);
+    let last = segs[segs.len() - 1].clone();
+    if (last.0, last.1) != (el, ec) {
+        bad.push(format!("failing {kind} reported at {}:{}, its first token is at {}:{}", last.0, last.1, el, ec));
+        kinds.push(kind.to_string());
+    }
+    if d.trace.len() == ev.chain.len() {
+        for (k, (cn, _)) in ev.chain.iter().enumerate() {
+            let (l, c) = w2.pos[*cn].unwrap_or((0, 0));
+            out.probes.push("pos:trace".into());
+            for f in &w2.feats[*cn] {
+                out.probes.push(format!("feat:{f}"));
+                out.cells.push(format!("trace<-{f}"));
+            }
+            if (d.trace[k].line, d.trace[k].col) != (l, c) {
+                if ev.chain_in_slot[k] {
+                    // K1: a call written inside an interpolation slot (known_findings.json)
+                    known_k1 = true;
+                    continue;
+                }
+                bad.push(format!("stack-trace line {} gives {}:{}, that call is at {}:{}", k + 1, d.trace[k].line, d.trace[k].col, l, c));
+                kinds.push("trace".to_string());
+            }
+        }
+    } else {
+        out.probes.push("trace-length-mismatch(C17)".into());
+    }
+    if known_k1 {
+        out.known.push("interp-slot-positions".into());
+    }
+    if !bad.is_empty() {
+        kinds.dedup();
+        out.violation = Some(Violation {
+            clause: clause.into(),
+            signature: format!("position:{}", kinds.join("+")),
+            detail: format!("{}; plan=[{}]", bad.join("; "), case.plan.encode_items()),
+            expected: format!("{kind} {}:{} trace {:?}", el, ec, ev.chain.iter().map(|(cn, _)| w2.pos[*cn].unwrap_or((0, 0))).collect::<Vec<_>>()),
+            observed: format!("stderr={:?}", oracle::show(&r.stderr)),
+        });
+    }
+    out
+}
 
 const REPL: &[&[u8]] = &[b"@", b"~", b"^", b"?", b"\x01", b"`", "é".as_bytes(), "✓".as_bytes(), b"\x0b", "𝄞".as_bytes()];
 
@@ -27,7 +88,7 @@ impl Property for C18 {
         if tier == "thorough" { 1_500_000 } else { 40_000 }
     }
     fn rule(&self) -> String {
-        "case = (W2 call-tree IR rendered by the layout printer under a seeded layout: tabs, CR LF, blank lines, `;` terminators, comments with multi-byte text, continuation breaks after every documented continuation token, multi-line and multi-byte string literals before call sites) x (write error on fd 1 at a write index => the print call and every active call become reported positions | one inter-token space replaced by a character no token starts with, incl. multi-byte ones, optionally delivered across read-chunk boundaries => a lexical error position); oracle: every <line>:<col> on stderr line 1 and on each stack-trace line equals the printer's recorded position of that call's first token; the lexical error position equals the position of the corrupted byte; non-trivial = a fault fired; distinct = distinct (program text, plan)".to_string()
+        "case = (W2 call-tree IR rendered by the layout printer under a seeded layout: tabs, CR LF, blank lines, `;` terminators, comments with multi-byte text, continuation breaks after every documented continuation token, multi-line and multi-byte string literals before call sites) x (write error on fd 1 at a write index => the print call and every active call become reported positions | the first byte of a call's name corrupted in storage => an undefined-name position | one inter-token space replaced by a character no token starts with, incl. multi-byte ones, optionally delivered across read-chunk boundaries => a lexical error position); oracle: every <line>:<col> on stderr line 1 and on each stack-trace line equals the printer's recorded position of that call's first token; the lexical error position equals the position of the corrupted byte; non-trivial = a fault fired; distinct = distinct (program text, plan)".to_string()
     }
     fn assumptions(&self) -> Vec<String> {
         vec![
@@ -38,7 +99,7 @@ impl Property for C18 {
     }
     fn required_probes(&self, _tier: &str) -> Vec<String> {
         vec![
-            "pos:call".into(), "pos:trace".into(), "pos:lex".into(),
+            "pos:call".into(), "pos:trace".into(), "pos:lex".into(), "pos:undefined-name".into(),
             "feat:tab-before".into(), "feat:cr-before".into(), "feat:multibyte-before".into(), "feat:comment-before".into(),
             "feat:multiline-string".into(), "feat:continuation-break".into(), "feat:blank-lines".into(), "feat:same-line-stmt".into(),
         ]
@@ -49,8 +110,14 @@ impl Property for C18 {
         let p = crate::w2::pick_with(rng, &crate::w2::GenOpts::default(), layout);
         let reference = ctx.reference(worker, &p.program);
         let mut plan = Plan::new();
-        if rng.chance(7, 10) {
+        let mode = rng.below(10);
+        if mode < 5 {
             plan = gen_sink_plan(rng, &reference);
+        } else if mode < 7 {
+            let w2p = crate::w2::build(&p.aux);
+            if let Some(it) = name_flip_item(rng, &w2p) {
+                plan.items.push(it);
+            }
         } else {
             let w2p = crate::w2::build(&p.aux);
             if !w2p.spaces.is_empty() {
@@ -88,8 +155,19 @@ impl Property for C18 {
             let sp = match w2.spaces.iter().find(|s| s.off == off) {
                 Some(s) => s,
                 None => {
-                    out.skipped = Some("flip-not-on-a-space".into());
-                    return out;
+                    // corrupted call name: an undefined-name failure at a known call
+                    return match locate_name_fault(&w2, off) {
+                        Some(Some(fd)) => {
+                            out.nontrivial = true;
+                            out.probes.push("pos:undefined-name".into());
+                            check_positions(&w2, &fd, &r, case, "name", out)
+                        }
+                        Some(None) => out,
+                        None => {
+                            out.skipped = Some("flip-not-on-a-space-or-call".into());
+                            out
+                        }
+                    };
                 }
             };
             out.nontrivial = true;
@@ -118,64 +196,8 @@ impl Property for C18 {
             Some(s) => s,
         };
         out.nontrivial = true;
-        let ev = &w2.events[sf.j];
-        let d = match diag::parse(&r.stderr, &r.argv1) {
-            None => {
-                out.probes.push("unparsed".into());
-                return out;
-            }
-            Some(d) => d,
-        };
-        let mut bad = vec![];
-        let mut kinds = vec![];
-        let mut known_k1 = false;
-        let (el, ec) = w2.pos[ev.node].unwrap_or((0, 0));
-        out.probes.push("pos:call".into());
-        for f in &w2.feats[ev.node] {
-            out.probes.push(format!("feat:{f}"));
-            out.cells.push(format!("call<-{f}"));
-        }
-        let (segs, _) = diag::segments(&d.head);
-        let last = segs[segs.len() - 1].clone();
-        if (last.0, last.1) != (el, ec) {
-            bad.push(format!("failing call reported at {}:{}, its first token is at {}:{}", last.0, last.1, el, ec));
-            kinds.push("call");
-        }
-        if d.trace.len() == ev.chain.len() {
-            for (k, (cn, _)) in ev.chain.iter().enumerate() {
-                let (l, c) = w2.pos[*cn].unwrap_or((0, 0));
-                out.probes.push("pos:trace".into());
-                for f in &w2.feats[*cn] {
-                    out.probes.push(format!("feat:{f}"));
-                    out.cells.push(format!("trace<-{f}"));
-                }
-                if (d.trace[k].line, d.trace[k].col) != (l, c) {
-                    if ev.chain_in_slot[k] {
-                        // K1: a call written inside an interpolation slot (known_findings.json)
-                        known_k1 = true;
-                        continue;
-                    }
-                    bad.push(format!("stack-trace line {} gives {}:{}, that call is at {}:{}", k + 1, d.trace[k].line, d.trace[k].col, l, c));
-                    kinds.push("trace");
-                }
-            }
-        } else {
-            out.probes.push("trace-length-mismatch(C17)".into());
-        }
-        if known_k1 {
-            out.known.push("interp-slot-positions".into());
-        }
-        if !bad.is_empty() {
-            kinds.dedup();
-            out.violation = Some(Violation {
-                clause: clause.into(),
-                signature: format!("position:{}", kinds.join("+")),
-                detail: format!("{}; print #{} plan=[{}]", bad.join("; "), sf.j, case.plan.encode_items()),
-                expected: format!("call {}:{} trace {:?}", el, ec, ev.chain.iter().map(|(cn, _)| w2.pos[*cn].unwrap_or((0, 0))).collect::<Vec<_>>()),
-                observed: format!("stderr={:?}", oracle::show(&r.stderr)),
-            });
-        }
-        out
+        let fd = FailDesc::from_print(&w2.events[sf.j]);
+        return check_positions(&w2, &fd, &r, case, "call", out);
     }
 
     fn shrink(&self, _ctx: &Ctx, case: &Case) -> Vec<Case> {
